@@ -153,18 +153,8 @@ def jsonFloat (k : FltKind) (q : Rat) : R Bytes :=
 def pad2 (n : Nat) : Bytes := [(48 + n / 10 % 10).toUInt8, (48 + n % 10).toUInt8]
 def pad4 (n : Nat) : Bytes := pad2 (n / 100) ++ pad2 (n % 100)
 
-/-- proleptic Gregorian date of a day number counted from 1970-01-01 (year, month, day) -/
-def civilOfDays (days : Int) : Int × Nat × Nat :=
-  let z := days + 719468
-  let era := z / 146097                      -- floor division
-  let doe := (z - era * 146097).toNat        -- [0, 146096]
-  let yoe := (doe - doe / 1460 + doe / 36524 - doe / 146096) / 365
-  let doy := doe - (365 * yoe + yoe / 4 - yoe / 100)
-  let mp := (5 * doy + 2) / 153
-  let d := doy - (153 * mp + 2) / 5 + 1
-  let m := if mp < 10 then mp + 3 else mp - 9
-  let y : Int := (yoe : Int) + era * 400 + (if m ≤ 2 then 1 else 0)
-  (y, m, d)
+/-- proleptic Gregorian date of a day number counted from 1970-01-01 (year, month, day): `Liquid/Time.lean` -/
+def civilOfDays (days : Int) : Int × Nat × Nat := Cal.civilOfDays days
 
 def jsonTime (u : Int) : R Bytes :=
   if u < -62167219200 || u > 253402300799 then
